@@ -724,8 +724,8 @@ impl Checker
                 }
                 else
                 {
+                    // an explicit trigger call causes exactly one trigger (C14, C01): type-wide reactors run
                     expected = Some(typewide);
-                    alt = Some(Vec::new());
                     self.stale("C18:trigger_mutation_on_dead_entity");
                 }
                 kind = Some(HookKind::Mutation(c));
